@@ -96,7 +96,7 @@ def main():
         ch_plugin.install(strs=(a.plugin == "str"))
     instrument()
     import stix2
-    assert stix2.__file__.startswith("/repo/"), "stix2 imported from %s" % stix2.__file__
+    assert stix2.__file__.startswith(os.environ.get("VERIF_REPO", "/repo") + "/"), "stix2 imported from %s" % stix2.__file__
     mod = importlib.import_module(a.module)
     fn = getattr(mod, a.func)
     from engine.hlib import V
